@@ -84,6 +84,34 @@ struct Tbl {
     name: &'static str,
     cols: Vec<(&'static str, Ty, bool)>,
     chunks: Vec<Vec<Vec<String>>>,
+    /// index of the PRIMARY KEY column (unique, non-null values), if the table is keyed
+    pk: Option<usize>,
+}
+
+/// keyed table: column 0 is the PRIMARY KEY (distinct non-null values 0..9 in random order), filled by
+/// 2..4 INSERTs — on the disk engine the scan merges the row-sets in key order and the planner relies on it
+fn gen_keyed_table(r: &mut Rng, name: &'static str, cols: Vec<(&'static str, Ty, bool)>) -> Tbl {
+    let n = r.range(3, 8) as usize;
+    let mut keys: Vec<i64> = (0..10).collect();
+    for k in (1..keys.len()).rev() {
+        let j = r.below(k as u64 + 1) as usize;
+        keys.swap(k, j);
+    }
+    let rows: Vec<Vec<String>> = (0..n)
+        .map(|i| {
+            cols.iter()
+                .enumerate()
+                .map(|(j, c)| if j == 0 { format!("i32:{}", keys[i]) } else { gen_cell(r, c.1, c.2, false) })
+                .collect()
+        })
+        .collect();
+    let nch = r.range(2, 4) as usize;
+    let mut chunks: Vec<Vec<Vec<String>>> = vec![vec![]; nch];
+    for (i, row) in rows.into_iter().enumerate() {
+        chunks[i % nch].push(row);
+    }
+    chunks.retain(|c| !c.is_empty());
+    Tbl { name, cols, chunks, pk: Some(0) }
 }
 
 /// Table layouts (every chunk = one INSERT = one chunk of the in-memory scan):
@@ -160,7 +188,7 @@ fn gen_table(r: &mut Rng, name: &'static str, cols: Vec<(&'static str, Ty, bool)
             }
         }
     }
-    Tbl { name, cols, chunks }
+    Tbl { name, cols, chunks, pk: None }
 }
 
 // ---------------------------------------------------------------------------------------------
@@ -244,6 +272,36 @@ struct Query {
     /// the query has a correlated scalar aggregate subquery: `logical` carries the placeholder `@MODE@`
     /// (sql | countbug | collapse | both) of its `applyagg` node
     scalar_sub: bool,
+    /// ORDER BY on a subset of the output columns: the answer is compared as a bag AND as a sequence
+    /// on these output positions
+    order_keys: Option<Vec<usize>>,
+}
+
+/// ORDER BY on a column of the PADDED side of an outer join (or on a GROUP BY key over such a join): the
+/// NULL keys of the padded rows must come first (asc) / last (desc) whatever the join executor emits last.
+fn gen_orderpad_query(r: &mut Rng, t0: &Tbl, t1: &Tbl) -> Query {
+    let jt = *r.pick(&[("LEFT JOIN", "left_outer"), ("LEFT JOIN", "left_outer"), ("RIGHT JOIN", "right_outer"), ("FULL JOIN", "full_outer"), ("FULL JOIN", "full_outer"), ("JOIN", "inner")]);
+    let from_sql = format!("{} {} {} ON a = x", t0.name, jt.0, t1.name);
+    let from_plan = format!("(join {} (= $0.0 $1.0) {} {})", jt.1, scan_plan(0, t0.cols.len()), scan_plan(1, t1.cols.len()));
+    let (kc_sql, kc_plan) = if r.chance(2, 3) { ("x", "$1.0") } else { ("a", "$0.0") };
+    let desc = r.chance(1, 2);
+    let mut shape = format!("join:{}:i32=i32 order-by-padded-key/{}{}", jt.1, kc_sql, if desc { "/desc" } else { "" });
+    let (sel, plan) = if r.chance(1, 2) {
+        let others = [("c", "$0.2"), ("z", "$1.2"), ("s", "$0.3"), ("y", "$1.1")];
+        let oc = r.pick(&others);
+        shape += " proj";
+        (format!("SELECT {kc_sql} AS o0, {} AS o1 FROM {from_sql}", oc.0), format!("(proj (list {kc_plan} {}) {from_plan})", oc.1))
+    } else {
+        shape += " group-by";
+        let (ag_sql, ag_plan) = *r.pick(&[("count(*)", "rowcount"), ("count(c)", "(count $0.2)"), ("max(z)", "(max $1.2)")]);
+        (
+            format!("SELECT {kc_sql} AS o0, {ag_sql} AS o1 FROM {from_sql} GROUP BY {kc_sql}"),
+            format!("(proj (list {kc_plan} {ag_plan}) (hashagg (list {kc_plan}) (list {ag_plan}) {from_plan}))"),
+        )
+    };
+    let sql = format!("{sel} ORDER BY o0{}", if desc { " DESC" } else { "" });
+    let logical = format!("(order (list {}) {plan})", if desc { "(desc #0)" } else { "#0" });
+    Query { shape, sql: sql.clone(), lite: sql, logical, ordered: false, limit: None, scalar_sub: false, order_keys: Some(vec![0]) }
 }
 
 fn scan_plan(t: usize, ncols: usize) -> String {
@@ -659,7 +717,7 @@ fn gen_query(r: &mut Rng, t0: &Tbl, t1: &Tbl, force_scalar: bool) -> Query {
         shape += " limit-unordered";
         limit = Some((n, off));
     }
-    Query { shape, sql, lite, logical: plan, ordered, limit, scalar_sub }
+    Query { shape, sql, lite, logical: plan, ordered, limit, scalar_sub, order_keys: None }
 }
 
 fn gen(n: usize, out: &str) {
@@ -681,11 +739,19 @@ fn gen(n: usize, out: &str) {
         let force_scalar = r.chance(14, 100);
         let l0 = if force_scalar && l0 != 2 && r.chance(1, 2) { 3 } else { l0 };
         let t0 = gen_table(&mut r, "t0", vec![("a", Ty::I32, true), ("b", Ty::I64, true), ("c", Ty::I32, false), ("s", Ty::Str, true), ("d", Ty::Bool, false)], l0);
-        let t1 = gen_table(&mut r, "t1", vec![("x", Ty::I32, true), ("y", Ty::I64, true), ("z", Ty::I32, false), ("w", Ty::Str, true)], l1);
-        let q = gen_query(&mut r, &t0, &t1, force_scalar);
-        let tj = |t: &Tbl| json!({"name": t.name, "cols": t.cols.iter().map(|c| json!([c.0, c.1.tag(), c.1.sql()])).collect::<Vec<_>>(), "chunks": t.chunks});
+        // 8 % of the triples: ORDER BY on the padded side's key over an outer join, t1 keyed (PRIMARY KEY x,
+        // several INSERTs), mostly on the disk engine
+        let force_orderpad = !force_scalar && r.chance(8, 100);
+        let t1 = if force_orderpad {
+            gen_keyed_table(&mut r, "t1", vec![("x", Ty::I32, true), ("y", Ty::I64, true), ("z", Ty::I32, false), ("w", Ty::Str, true)])
+        } else {
+            gen_table(&mut r, "t1", vec![("x", Ty::I32, true), ("y", Ty::I64, true), ("z", Ty::I32, false), ("w", Ty::Str, true)], l1)
+        };
+        let q = if force_orderpad { gen_orderpad_query(&mut r, &t0, &t1) } else { gen_query(&mut r, &t0, &t1, force_scalar) };
+        let tj = |t: &Tbl| json!({"name": t.name, "pk": t.pk, "cols": t.cols.iter().enumerate().map(|(j, c)| json!([c.0, c.1.tag(), if t.pk == Some(j) { format!("{} primary key", c.1.sql()) } else { c.1.sql().to_string() }])).collect::<Vec<_>>(), "chunks": t.chunks});
         let v = json!({"id": id, "shape": q.shape, "tables": [tj(&t0), tj(&t1)], "sql": q.sql, "sqlite": q.lite, "logical": q.logical, "ordered": q.ordered,
-            "limit": q.limit.map(|l| json!([l.0, l.1])), "disk": r.chance(2, 5), "scalar_sub": q.scalar_sub});
+            "limit": q.limit.map(|l| json!([l.0, l.1])), "disk": if force_orderpad { r.chance(4, 5) } else { r.chance(2, 5) }, "scalar_sub": q.scalar_sub,
+            "order_keys": q.order_keys});
         s += &v.to_string();
         s.push('\n');
     }
